@@ -45,3 +45,29 @@ def validate_many(traces):
 
 def validate(tr):
     return validate_many([tr])[0]
+
+
+def replay_many(traces):
+    """replay every trace on the PROOF MODEL (single producer: Pipeline.v / pipe_replay_entry, multi producer: MultiPub.v /
+    ring_replay_entry); works for aborted runs too (any prefix of an execution is an execution).
+    returns list: True (accepted) or a message"""
+    lines = [encode(t).replace("ring_validate_entry", "ring_replay_entry" if t.cfg.multi else "pipe_replay_entry", 1) for t in traces]
+    try:
+        outs = driver_eval(lines)
+    except RuntimeError:
+        outs = []
+        for i, ln in enumerate(lines):
+            try:
+                outs.append(driver_eval([ln])[0])
+            except RuntimeError:
+                DRIVER_FAILURES.append(len(traces[i].events)); outs.append("-1")
+    res = []
+    for t, o in zip(traces, outs):
+        v = int(o.split()[0])
+        if v < 0:
+            res.append(True)
+        else:
+            model = "Disruptor/MultiPub.v" if t.cfg.multi else "Disruptor/Pipeline.v"
+            res.append(f"event #{v} is not an enabled step of {model} in the state the replay had reached (or an observed value differs from the model's): "
+                       f"{t.events[v].brief()} (previous of that thread: " + "; ".join(e.brief() for e in [x for x in t.events[:v] if x.tid == t.events[v].tid][-3:]) + ")")
+    return res
